@@ -40,6 +40,9 @@ Scalars ==
     \cup {Uri(s) : s \in UriTexts}
     \cup {Ref(T("a"), <<>>), Ref(T("a-b:c.d~e_1"), <<>>), Ref(T("1z"), <<T("x y")>>), Ref(T("p:q"), <<<<>>>>)}
     \cup {Ref(T("r"), <<s>>) : s \in {<<34>>, <<92>>, <<36>>, <<10>>, <<233>>, <<128512>>}}
+    \* a component that coincides with its sibling (a shortcut "same as ... : omit" must not fire)
+    \cup {Ref(T("r"), <<T("r")>>), Ref(T("ahu-1"), <<T("ahu-1")>>), XStr(T("Bin"), T("Bin")), Dict(<<<<T("a"), Str(T("a"))>>>>),
+          Coord(F64OfNumeral(T("12.5")), F64OfNumeral(T("12.5")))}
     \cup {Symbol(T("a")), Symbol(T("a-b")), Symbol(T("lib:ph")), Symbol(T("a.b_c~1"))}
     \cup {XStr(T("Bin"), s) : s \in {<<>>, T("text/plain"), <<34>>, <<92>>, <<10>>, <<128512>>}}
     \cup {XStr(T("X_1a"), T("v"))}
